@@ -279,6 +279,45 @@ func (g *Gen) genC10(n int) error {
 			g.st("case")
 			continue
 		}
+		if i%97 == 14 {
+			// a build whose output exceeds a megabyte (1100 documents with 1 KiB of incompressible stored
+			// bytes each), then small ones on the same plugin; every one is what its own batch says
+			g.curMode = 1026
+			g.emit("cfg chunkmode=1026")
+			for _, nd := range []int{2, 1100, 3, 0, 2} {
+				b := &BatchSpec{Name: g.fresh("b")}
+				for d := 0; d < nd; d++ {
+					id := []byte(fmt.Sprintf("%s-%d", b.Name, d))
+					doc := DocSpec{ID: id, Plain: true}
+					doc.Fields = append(doc.Fields, FieldSpec{Kind: "fld", Name: "_id", Typ: 't', Stored: true, Len: 1, Val: id, Toks: []TokSpec{{Term: id, Freq: 1}}})
+					f := FieldSpec{Kind: "fld", Name: "blob", Typ: 't', Stored: true, Len: 1, Toks: []TokSpec{{Term: []byte(fmt.Sprintf("w%d", d%5)), Freq: 1}}}
+					if nd > 100 {
+						seed := 7000 + d
+						f.Rnd = fmt.Sprintf("%d:%d", seed, 1024)
+						f.Val = rndBytes(seed, 1024)
+					} else {
+						f.Val = []byte("small")
+					}
+					doc.Fields = append(doc.Fields, f)
+					b.Docs = append(b.Docs, doc)
+				}
+				g.emitBatch(b)
+				s := g.fresh("s")
+				g.emit("build %s %s", s, b.Name)
+				g.newBuilt(s, b)
+				g.emit("q byteswritten %s", s)
+				if nd > 100 {
+					g.emit("q count %s", s)
+					g.emit("q stored %s %d stop=*", s, nd-1)
+					g.emit("q post %s blob %s ex=nil fl=100 ops=N,A%d,N", s, hx([]byte("w3")), nd-20)
+				} else {
+					g.dumpAll(s)
+				}
+			}
+			g.st("seq.megabyte")
+			g.st("case")
+			continue
+		}
 		if i%97 == 4 {
 			// batches whose doc values need different numbers of chunks, built one after the other
 			// (the same size twice in a row, in the cardinality-dependent chunk mode; a term present in
@@ -722,6 +761,20 @@ func (g *Gen) genC18(n int) error {
 			g.st("cancel.bigdv")
 			g.st("case")
 			continue
+		}
+		if i%6 == 2 {
+			// one input, nothing deleted, the channel closed before the call - through the public entry
+			// point (default chunk mode) and through the mode hook; also with a deletion, and in memory
+			lone, _ := g.smallSegForFaults()
+			for _, md := range []int{1026, 1024} {
+				g.emit("cfg chunkmode=%d", md)
+				for _, dr := range []string{"nil", "-", "0"} {
+					g.emit("merge %s segs=%s drops=%s close=before", g.fresh("fl"), lone, dr)
+					g.emit("merge %s segs=%s drops=%s close=beforebuf:2", g.fresh("fl"), lone, dr)
+				}
+			}
+			g.emit("cfg chunkmode=%d", g.curMode)
+			g.st("cancel.lone")
 		}
 		if g.vectors && i%3 == 1 {
 			// the channel is closed from inside every engine call of a vector merge in turn
